@@ -1042,6 +1042,42 @@ func (x *explorer) step(s *PState) []succ {
 	case NRange:
 		xr := x.resolve(n.X, st, 0)
 		key := xr.Key()
+		constMap := xr.Op == "maplit" && len(xr.Args) > 0 && len(xr.Args) <= 32 && n.IdxVar != nil
+		if constMap {
+			for i := 0; i+1 < len(xr.Args); i += 2 {
+				if !xr.Args[i].isConst() {
+					constMap = false
+				}
+			}
+		}
+		if constMap {
+			// range over a local map with constant keys: unrolled in the (sorted) order of the keys -
+			// the language leaves the order open, nothing may depend on it
+			cnt := len(xr.Args) / 2
+			idx := 0
+			if !n.First {
+				if v, ok := st[n.IdxVar.ID]; ok {
+					if k, ok := intConst(v.T); ok {
+						idx = int(k)
+					}
+				}
+			}
+			st2 := copyStore(st)
+			if idx < cnt {
+				st2[n.IdxVar.ID] = Val{T: konst(strconv.Itoa(idx + 1))}
+				if n.KeyVar != nil {
+					st2[n.KeyVar.ID] = Val{T: xr.Args[2*idx], N: -1}
+				}
+				if n.ValVar != nil {
+					st2[n.ValVar.ID] = Val{T: xr.Args[2*idx+1], N: termNilness(xr.Args[2*idx+1])}
+				}
+				ls := append(append([]Label{}, labels...), Label{Kind: "rangenext", Key: key, T: xr, Node: n})
+				return []succ{{n: n.Succ[0], st: st2, facts: s.Facts, labels: ls}}
+			}
+			delete(st2, n.IdxVar.ID)
+			ls := append(append([]Label{}, labels...), Label{Kind: "rangedone", Key: key, T: xr, Node: n})
+			return []succ{{n: n.Succ[1], st: st2, facts: s.Facts, labels: ls}}
+		}
 		if xr.Op == "list" && len(xr.Args) <= 32 && n.IdxVar != nil {
 			// range over a literal list: unrolled with a hidden counter
 			idx := 0
